@@ -47,7 +47,14 @@ def carve(body, ddl, pos):
 
 PUNCT = ";:<>[]{}\"`@&|!?$%~+-*/.#_ ,)=(^"
 WORDS = ["NOT NULL", "primary key", "create table", "select", "DEFAULT", "x", "abc", "Zq9", "--", "#", "''", " ", "  ", "a b", "100%",
-         "1,2", "a,b", "k=v", "drop table", "/*", "*/", "\\", "ü", "null", "CHECK", "references t (x)", "-- x", "# y", ";", "it''s"]
+         "1,2", "a,b", "k=v", "drop table", "/*", "*/", "\\", "ü", "null", "CHECK", "references t (x)", "-- x", "# y", ";", "it''s",
+         # ordinary words and notations that merely contain the letters of a keyword or an operator of some dialect
+         "for", "n/a for now", "California", "Before noon", "order by", "on update", "as of", "in", "::", "::1", "Spree::Order", "a::text",
+         "next value", "array", "enum", "set", "like", "tag", "index"]
+
+MODES = ["mysql", "postgres", "hql", "mssql", "oracle", "redshift", "snowflake", "bigquery", "spark_sql", "databricks", "sqlite", "vertics", "ibm_db2", "athena"]
+# positions whose value sits in a field every output mode reports
+MODE_FREE_POS = {"default", "default_last", "check", "type_enum", "col_enum", "alter_default", "alter_add_default", "two_literals"}
 
 POS = {
     "default": ("create table t (a int, b varchar(10) default {L} not null, c int);", {}),
@@ -177,7 +184,9 @@ def case_strategy(draw):
     if draw(st.integers(0, 9)) == 0:
         digits = draw(st.text(alphabet="0123456789", min_size=1, max_size=25))
         return {"numeric": True, "pos": draw(st.sampled_from(sorted(NUM_POS))), "body": digits}
-    return {"numeric": False, "pos": draw(st.sampled_from(sorted(POS))), "body": draw(body_strategy())}
+    # positions parsed in the default mode are also tried in a drawn dialect mode (the literal is the same in all of them)
+    return {"numeric": False, "pos": draw(st.sampled_from(sorted(POS))), "body": draw(body_strategy()),
+            "mode": draw(st.sampled_from([None, None, None] + MODES))}
 
 
 class C07(Prop):
@@ -224,6 +233,9 @@ class C07(Prop):
         ddl, kw, lit = self.ddl(case)
         pos = case["pos"]
         body = case["body"]
+        if case.get("mode") and not kw and pos in MODE_FREE_POS:
+            kw = {"output_mode": case["mode"]}
+            out.label("mode:" + case["mode"])
         if not case["numeric"]:
             if body.replace("''", "").count("'"):
                 out.excluded = "unbalanced-quote(not a literal)"
